@@ -130,14 +130,18 @@ func (c *Ctx) closurePurity(r *shape.Result, fi *load.FuncInfo) {
 func CheckC05(c *Ctx) {
 	run := c.Run
 	run.Technique = "stream-shape calculus on every strategy Compute (length, anchor, Hold-fill prefix and fill-taint of the action stream, symbolic in periods and n) + registry coverage + action-constant lint"
-	run.Explanation = "For every type implementing strategy.Strategy the action stream's length is proved to be max(n, warm-up) (hence exactly n once n >= warm-up and never fewer than n), its anchor to be exactly 0 (action i belongs to snapshot i), the prefix inserted by the final Shift to consist of strategy.Hold and to cover every element that was computed from another Shift's fill value (fill-taint), for ALL admissible configurations and ALL n >= 0. Compound and decorator strategies are checked against the contract of the wrapped Strategy interface (at least n actions, exactly n beyond its warm-up, anchor 0). Every type constructed by an AllStrategies registry must have been analysed, and Action values may only originate from the three named constants. Decorators: while no position is open and the wrapped strategy says Hold, No-Loss and Stop-Loss say Hold and stay not invested, for every ordering of the closing price, the remembered level and 0 (decided on the closure's guarded commands)."
+	run.Explanation = "For every type implementing strategy.Strategy the action stream's length is proved to be max(n, warm-up) (hence exactly n once n >= warm-up and never fewer than n), its anchor to be exactly 0 (action i belongs to snapshot i), the prefix inserted by the final Shift to consist of strategy.Hold and to cover every element that was computed from another Shift's fill value (fill-taint), for ALL admissible configurations and ALL n >= 0. Compound and decorator strategies are checked against the contract of the wrapped Strategy interface (at least n actions, exactly n beyond its warm-up, anchor 0). The indicator warm-up contracts used on the way are re-proved by this check. Every type constructed by an AllStrategies registry must have been analysed, and Action values may only originate from the three named constants. Decorators: while no position is open and the wrapped strategy says Hold, No-Loss and Stop-Loss say Hold and stay not invested, for every ordering of the closing price, the remembered level and 0 (decided on the closure's guarded commands)."
 	run.Trusted = []string{"go/types", "Strategy interface contract for wrapped strategies", "declared IdlePeriod contracts (C02)", "Γ", "Fourier–Motzkin entailment"}
 	strs := StrategyMethods(c.P, "Compute")
 	run.Count("strategy_computes", len(strs))
 	run.Floor("strategy_computes", 40)
 	analysed := map[string]bool{}
+	used := map[string]bool{}
 	for _, fi := range strs {
 		for _, r := range c.Results(fi, Opts{Mode: shape.ModeContracts}) {
+			for t := range r.ContractsUsed {
+				used[t] = true
+			}
 			c.undecidedToFindings(r, "actions")
 			if r.Recv != nil {
 				analysed[r.Recv.TypeName()] = true
@@ -151,6 +155,7 @@ func CheckC05(c *Ctx) {
 			c.checkActions(r, fi, outs[0])
 		}
 	}
+	c.recheckContracts(used, "actions/contract", "strategies shift their actions by this indicator's IdlePeriod() and pair its k-th value with snapshot k + IdlePeriod()")
 	c.registryCoverage(analysed)
 	c.actionConstants()
 	c.decoratorHold()
@@ -332,19 +337,93 @@ func (c *Ctx) actionConstants() {
 func CheckC14(c *Ctx) {
 	run := c.Run
 	run.Technique = "stream-shape calculus on every strategy Report method: the template's range-over-dates with one Value() per column is a zip; every column's length and anchor are proved equal to the date stream's for symbolic configurations"
-	run.Explanation = "helper/report.tmpl ranges over .Date and calls .Value once on every column per row, so a report is a zip of the date stream with every column. For each of the strategy Report methods the date stream and every column stream (found through the constructed helper.Report object, not by name) are derived symbolically; for all admissible configurations and every n beyond the warm-up each column is proved to have exactly the date stream's length (no column runs dry, none keeps unconsumed values) and the same anchor with respect to the snapshots (row d carries the values computed for d). The Close column must derive from SnapshotsAsClosings, the annotation column from ActionsToAnnotations of this strategy's own ComputeWithOutcome, the outcome column from its outcomes."
+	run.Explanation = "helper/report.tmpl ranges over .Date and calls .Value once on every column per row, so a report is a zip of the date stream with every column. For each of the strategy Report methods the date stream and every column stream (found through the constructed helper.Report object, not by name) are derived symbolically; for all admissible configurations and every n beyond the warm-up each column is proved to have exactly the date stream's length (no column runs dry, none keeps unconsumed values) and the same anchor with respect to the snapshots (row d carries the values computed for d). The indicator warm-up contracts these verdicts rest on (every indicator whose Compute was summarised by IdlePeriod() while a Report was analysed, and transitively the indicators it is built from) are re-proved by this check: max(0, n - IdlePeriod()) values anchored at IdlePeriod(). The Close column must derive from SnapshotsAsClosings, the annotation column from ActionsToAnnotations of this strategy's own ComputeWithOutcome, the outcome column from its outcomes."
 	run.Trusted = []string{"go/types", "template semantics: one Value() per column per date row (helper/report.tmpl read once; the rule re-checks that the template still ranges over .Date and calls .Value)", "declared IdlePeriod contracts (C02)", "Strategy contract for wrapped strategies (C05)", "Γ"}
 	reps := StrategyMethods(c.P, "Report")
 	run.Count("report_methods", len(reps))
 	run.Floor("report_methods", 40)
 	c.templateShape()
+	used := map[string]bool{}
 	for _, fi := range reps {
 		for _, r := range c.Results(fi, Opts{Mode: shape.ModeContracts, SkipGamma: reportNeedsNoGamma}) {
 			c.undecidedToFindings(r, "report")
 			c.checkReport(r, fi)
+			for t := range r.ContractsUsed {
+				used[t] = true
+			}
 		}
 	}
+	c.recheckContracts(used, "report/contract", "strategy reports skip IdlePeriod() dates for this indicator's column and print its k-th value in the row of date k + IdlePeriod()")
 	run.Assume("n exceeds every anchor occurring in the report pipeline (series longer than the warm-up, as the property states)")
+}
+
+// recheckContracts: the contracts the verdicts of a contract-mode analysis rest on. Every indicator
+// whose Compute was replaced by its declared warm-up really emits max(0, n - IdlePeriod()) values
+// anchored at IdlePeriod(), and so do the indicators those are built from.
+func (c *Ctx) recheckContracts(used map[string]bool, rule, who string) {
+	run := c.Run
+	byType := map[string]*load.FuncInfo{}
+	for _, fi := range IndicatorComputes(c.P) {
+		if rs := c.Results(fi, Opts{Mode: shape.ModeContracts}); len(rs) > 0 && rs[0].Recv != nil {
+			byType[rs[0].Recv.TypeName()] = fi
+		}
+	}
+	var work []string
+	for t := range used {
+		work = append(work, t)
+	}
+	sort.Strings(work)
+	nContracts := 0
+	for len(work) > 0 {
+		t := work[0]
+		work = work[1:]
+		fi := byType[t]
+		if fi == nil {
+			continue
+		}
+		nContracts++
+		for _, r := range c.Results(fi, Opts{Mode: shape.ModeContracts}) {
+			c.reportContract(fi, r, rule, who)
+			var more []string
+			for u := range r.ContractsUsed {
+				if !used[u] {
+					used[u] = true
+					more = append(more, u)
+				}
+			}
+			sort.Strings(more)
+			work = append(work, more...)
+		}
+	}
+	run.Count("indicator_contracts_rechecked", nContracts)
+	run.Floor("indicator_contracts_rechecked", 25)
+}
+
+// reportContract: the warm-up contract of an indicator a report or strategy depends on.
+func (c *Ctx) reportContract(fi *load.FuncInfo, r *shape.Result, rule, who string) {
+	run := c.Run
+	if r.Idle == nil {
+		return
+	}
+	pos := c.P.Pos(fi.Decl.Pos())
+	want := lin.Pos(lin.Sub(r.N, r.Idle))
+	for i, o := range retStreams(r) {
+		osite := fmt.Sprintf("%s/out%d", r.RootName, i)
+		if o.Len == nil || o.Lead == nil {
+			continue // reported by the report rule as undecided where it matters
+		}
+		v, w := decideEQ(r.G, o.Len, want)
+		okA := proveEQWhereNonEmpty(r.G, o.Len, o.Lead, r.Idle)
+		run.Oblige(v == holds && okA)
+		if v != holds {
+			run.Violate(report.Finding{Rule: rule, Site: osite, Detail: "len " + o.Len.String(), Pos: pos, Witness: w,
+				Message: fmt.Sprintf("%s (= %s), but it emits %s values for n snapshots, not max(0, n - IdlePeriod())%s", who, r.Idle, o.Len, pathNote(r)), Derivation: gammaStrings(r)})
+		}
+		if !okA && o.Lead.IsLin() {
+			run.Violate(report.Finding{Rule: rule, Site: osite, Detail: "anchor " + o.Lead.String(), Pos: pos,
+				Message: fmt.Sprintf("%s (= %s), but its k-th value was computed for position k + %s%s", who, r.Idle, o.Lead, pathNote(r)), Derivation: gammaStrings(r)})
+		}
+	}
 }
 
 // beyondWarmup strengthens Γ with "n exceeds every anchor, fill prefix and wrapped warm-up of the pipeline".
